@@ -17,6 +17,8 @@ import (
 	databasev1 "github.com/apache/skywalking-banyandb/api/proto/banyandb/database/v1"
 	modelv1 "github.com/apache/skywalking-banyandb/api/proto/banyandb/model/v1"
 	"github.com/apache/skywalking-banyandb/banyand/protector"
+	"github.com/apache/skywalking-banyandb/pkg/compress/zstd"
+	"github.com/apache/skywalking-banyandb/pkg/fs"
 	pbv1 "github.com/apache/skywalking-banyandb/pkg/pb/v1"
 	"github.com/apache/skywalking-banyandb/pkg/query/model"
 )
@@ -170,4 +172,39 @@ func (v *C13Table) C01BlockCounts() (parts int, blocks, spans uint64) {
 		spans += pw.p.partMetadata.TotalCount
 	}
 	return
+}
+
+// C01PrimaryLayout is a read-only view of the primary index of every part of the current snapshot: per part, per
+// primary index block, the trace ids of the blocks it lists (in stored order). The harness uses it only to CHOOSE
+// inputs (where a primary block rolls over) and to record which alignments were exercised, never as an oracle.
+func (v *C13Table) C01PrimaryLayout() (out [][][]string, err error) {
+	snp := v.tst.currentSnapshot()
+	if snp == nil {
+		return nil, nil
+	}
+	defer snp.decRef()
+	for _, pw := range snp.parts {
+		p := pw.p
+		var part [][]string
+		for i := range p.primaryBlockMetadata {
+			pbm := &p.primaryBlockMetadata[i]
+			buf := make([]byte, int(pbm.size))
+			fs.MustReadData(p.primary, int64(pbm.offset), buf)
+			raw, derr := zstd.Decompress(nil, buf)
+			if derr != nil {
+				return nil, derr
+			}
+			bms, uerr := unmarshalBlockMetadata(nil, raw, p.tagType)
+			if uerr != nil {
+				return nil, uerr
+			}
+			ids := make([]string, len(bms))
+			for k := range bms {
+				ids[k] = bms[k].traceID
+			}
+			part = append(part, ids)
+		}
+		out = append(out, part)
+	}
+	return out, nil
 }
